@@ -499,6 +499,216 @@ fn run_sequence(
     out
 }
 
+/// One connection to the HTTPS server.
+#[derive(Clone, Debug)]
+enum TlsItem {
+    /// (i) connect, send nothing, close
+    ZeroBytes(How),
+    /// (ii) the first k bytes of a real ClientHello, then close
+    PartialHello(usize, How),
+    /// (ii') the first k bytes of a ClientHello, then stay connected and silent
+    /// while the health request is made (a stalled handshake must not hold up others)
+    PartialHelloHold(usize),
+    /// (iii) bytes in clear (random, or an HTTP request) to the TLS port
+    Clear(Vec<u8>),
+    /// (iv) complete handshake, then a (faulty or valid) request from the corpus
+    After(Case),
+    /// valid request through a gated handler: Start/Tick/Done/RespDelivered in the trace
+    Lifecycle,
+}
+
+/// A sequence against a fresh HTTPS server.  After EACH faulty connection a
+/// health request over TLS on a fresh connection (new handshake) must get 200.
+fn run_tls_sequence(
+    rt: &Arc<tokio::runtime::Runtime>,
+    id: &str,
+    mode: HandlerTaskMode,
+    items: Vec<TlsItem>,
+    par: usize,
+    kit: &Arc<TlsKit>,
+) -> Vec<String> {
+    let ctx = Ctx::new();
+    ctx.release_all();
+    let server = start_opts(rt, &ctx, mode, Some(kit.server.clone()));
+    let addr = server.local_addr();
+    let lines: Arc<Mutex<Vec<(usize, String)>>> = Arc::new(Mutex::new(Vec::new()));
+    let next = Arc::new(AtomicUsize::new(0));
+    let items = Arc::new(items);
+    let bad = Arc::new(AtomicUsize::new(0));
+    let unhealthy = Arc::new(AtomicUsize::new(0));
+    let mut ts = Vec::new();
+    for _ in 0..par.max(1) {
+        let (ctx, rt, items, next, lines, bad, unhealthy, id, kit) = (
+            ctx.clone(),
+            rt.clone(),
+            items.clone(),
+            next.clone(),
+            lines.clone(),
+            bad.clone(),
+            unhealthy.clone(),
+            id.to_string(),
+            kit.clone(),
+        );
+        ts.push(std::thread::spawn(move || loop {
+            let i = next.fetch_add(1, Ordering::SeqCst);
+            if i >= items.len() {
+                break;
+            }
+            let c = (i + 1) as u32;
+            let mut faulty = true;
+            let mut held: Option<std::net::TcpStream> = None;
+            match &items[i] {
+                TlsItem::ZeroBytes(how) => {
+                    ctx.log(Ev::Fault(c, "disc"));
+                    match open(addr) {
+                        Some(s) => drop(disconnect(&rt, s, *how)),
+                        None => {
+                            bad.fetch_add(1, Ordering::SeqCst);
+                        }
+                    }
+                }
+                TlsItem::PartialHello(k, how) => {
+                    ctx.log(Ev::Fault(c, "trunc"));
+                    match open(addr) {
+                        Some(mut s) => {
+                            let k = (*k).min(kit.hello.len());
+                            let _ = s.write_all(&kit.hello[..k]);
+                            drop(disconnect(&rt, s, *how));
+                        }
+                        None => {
+                            bad.fetch_add(1, Ordering::SeqCst);
+                        }
+                    }
+                }
+                TlsItem::PartialHelloHold(k) => {
+                    ctx.log(Ev::Fault(c, "trunc"));
+                    match open(addr) {
+                        Some(mut s) => {
+                            let k = (*k).min(kit.hello.len());
+                            let _ = s.write_all(&kit.hello[..k]);
+                            held = Some(s);
+                        }
+                        None => {
+                            bad.fetch_add(1, Ordering::SeqCst);
+                        }
+                    }
+                }
+                TlsItem::Clear(bytes) => {
+                    ctx.log(Ev::Fault(c, "garbage"));
+                    match open(addr) {
+                        Some(mut s) => {
+                            let _ = s.set_read_timeout(Some(Duration::from_secs(8)));
+                            let _ = s.write_all(bytes);
+                            let _ = s.shutdown(std::net::Shutdown::Write);
+                            // whatever comes back is a TLS alert or nothing, not HTTP
+                            let mut buf = [0u8; 4096];
+                            loop {
+                                match s.read(&mut buf) {
+                                    Ok(0) | Err(_) => break,
+                                    Ok(_) => {}
+                                }
+                            }
+                            close_rst(&rt, s);
+                        }
+                        None => {
+                            bad.fetch_add(1, Ordering::SeqCst);
+                        }
+                    }
+                }
+                TlsItem::After(case) => {
+                    faulty = case.fault.is_some();
+                    if let Some(f) = case.fault {
+                        ctx.log(Ev::Fault(c, f));
+                    }
+                    match tls_connect(addr, &kit) {
+                        Some(mut s) => {
+                            let _ = s.sock.set_read_timeout(Some(Duration::from_secs(8)));
+                            let _ = s.write_all(&case.sent.bytes());
+                            let _ = s.flush();
+                            let recv = match case.end {
+                                End::Abrupt(how) => {
+                                    // no close_notify: the TCP connection just goes away
+                                    drop(disconnect(&rt, s.sock, how));
+                                    Vec::new()
+                                }
+                                End::ReadToEof | End::WaitThenFin => {
+                                    s.conn.send_close_notify();
+                                    let _ = s.flush();
+                                    let _ = s.sock.shutdown(std::net::Shutdown::Write);
+                                    let r = tls_read_to_end(&mut s);
+                                    close_rst(&rt, s.sock);
+                                    r
+                                }
+                                End::Wait => {
+                                    let r = tls_read_to_end(&mut s);
+                                    close_rst(&rt, s.sock);
+                                    r
+                                }
+                            };
+                            let mut tcase = case.clone();
+                            tcase.kind = format!("tls-{}", case.kind);
+                            lines.lock().unwrap().push((i, fc_line(&rt, &format!("{}.{}", id, c), mode, &tcase, &recv)));
+                        }
+                        None => {
+                            bad.fetch_add(1, Ordering::SeqCst);
+                        }
+                    }
+                }
+                TlsItem::Lifecycle => {
+                    faulty = false;
+                    let r = c;
+                    match tls_connect(addr, &kit) {
+                        Some(mut s) => {
+                            let _ = s.sock.set_read_timeout(Some(Duration::from_secs(10)));
+                            ctx.log(Ev::ReqSent(c, r));
+                            let _ = s.write_all(format!("GET /w/{} HTTP/1.1\r\nhost: localhost\r\nconnection: close\r\n\r\n", r).as_bytes());
+                            let _ = s.flush();
+                            let recv = tls_read_to_end(&mut s);
+                            if recv.starts_with(b"HTTP/1.1 200 ") && recv.ends_with(b"ok") {
+                                ctx.log(Ev::RespDelivered(r));
+                            }
+                            close_rst(&rt, s.sock);
+                        }
+                        None => {
+                            bad.fetch_add(1, Ordering::SeqCst);
+                        }
+                    }
+                }
+            }
+            if faulty {
+                // fresh TCP connection, fresh handshake
+                let ok = tls_health(addr, &kit);
+                ctx.log(Ev::Health(ok));
+                if !ok {
+                    unhealthy.fetch_add(1, Ordering::SeqCst);
+                }
+            }
+            drop(held);
+        }));
+    }
+    for t in ts {
+        let _ = t.join();
+    }
+    let healthy = tls_health(addr, kit);
+    ctx.log(Ev::Health(healthy));
+    let closed = close_with_deadline(rt, server, Duration::from_secs(60));
+    let log = ctx.snapshot();
+    let mut ls = lines.lock().unwrap().clone();
+    ls.sort();
+    let mut out: Vec<String> = ls.into_iter().map(|(_, l)| l).collect();
+    out.push(format!(
+        "seq {} {} n={} {} => health={} closed={} unconnected={}",
+        id,
+        mode_name(mode),
+        items.len(),
+        enc_log(&log),
+        (healthy && unhealthy.load(Ordering::SeqCst) == 0) as u8,
+        matches!(closed, Some(Ok(()))) as u8,
+        bad.load(Ordering::SeqCst)
+    ));
+    out
+}
+
 #[derive(Clone, Debug)]
 enum Item {
     Conn(Case),
@@ -568,20 +778,113 @@ fn main() {
         jobs.push((format!("q{}", i + 1), m, items, 1 + (i % 4)));
     }
 
-    let total = jobs.len();
-    let jobs = Arc::new(jobs);
+    // 3. HTTPS servers: handshake-level and post-handshake faults, a TLS health
+    //    request on a fresh connection after each of them
+    let kit = Arc::new(tls_kit());
+    let mut tls_jobs: Vec<(String, HandlerTaskMode, Vec<TlsItem>, usize)> = Vec::new();
+    let after_pool: Vec<Case> = small
+        .iter()
+        .filter(|c| !c.kind.starts_with("abrupt-") || c.kind.contains("-get"))
+        .cloned()
+        .collect();
+    for &m in &modes {
+        // systematic: every prefix length 1..40 of the ClientHello, FIN and RST; the other kinds once
+        let mut items = Vec::new();
+        for how in How::ALL {
+            items.push(TlsItem::ZeroBytes(how));
+        }
+        for k in 1..=40usize {
+            items.push(TlsItem::PartialHello(k, How::Fin));
+            items.push(TlsItem::PartialHello(k, How::Rst));
+        }
+        for k in [1usize, 5, 6, 40, 100, 100000] {
+            items.push(TlsItem::PartialHelloHold(k));
+        }
+        items.push(TlsItem::Clear(get("/health")));
+        items.push(TlsItem::Clear(v_post()));
+        for _ in 0..6 {
+            let n = rng.range(1, 300) as usize;
+            items.push(TlsItem::Clear((0..n).map(|_| rng.below(256) as u8).collect()));
+        }
+        // a TLS record header announcing more than follows / an oversized record / an alert
+        items.push(TlsItem::Clear(vec![0x16, 0x03, 0x01, 0x40, 0x00, 0x01]));
+        items.push(TlsItem::Clear(vec![0x16, 0x03, 0x03, 0xff, 0xff]));
+        items.push(TlsItem::Clear(vec![0x15, 0x03, 0x03, 0x00, 0x02, 0x02, 0x28]));
+        for c in after_pool.iter().filter(|c| !c.kind.starts_with("trunc-")) {
+            items.push(TlsItem::After(c.clone()));
+        }
+        for c in after_pool.iter().filter(|c| c.kind.starts_with("trunc-")).step_by(7) {
+            items.push(TlsItem::After(c.clone()));
+        }
+        for i in (1..items.len()).rev() {
+            let j = rng.below(i as u64 + 1) as usize;
+            items.swap(i, j);
+        }
+        let mut mixed = Vec::new();
+        for (i, it) in items.into_iter().enumerate() {
+            mixed.push(it);
+            if i % 10 == 3 {
+                mixed.push(TlsItem::Lifecycle);
+            }
+        }
+        tls_jobs.push((format!("tL{}", mode_name(m)), m, mixed, 3));
+    }
+    let n_tls_seq = if thorough { 300 } else { 30 };
+    for i in 0..n_tls_seq {
+        let m = modes[i % 2];
+        let n = rng.range(1, 20) as usize;
+        let mut items = Vec::new();
+        for _ in 0..n {
+            let how = *rng.pick(&How::ALL);
+            let it = match rng.below(12) {
+                0 => TlsItem::ZeroBytes(how),
+                1 | 2 => TlsItem::PartialHello(rng.range(1, 40) as usize, if rng.chance(1, 2) { How::Fin } else { How::Rst }),
+                3 => TlsItem::PartialHelloHold(rng.range(1, 300) as usize),
+                4 => TlsItem::Clear(get("/health")),
+                5 => {
+                    let n = rng.range(1, 200) as usize;
+                    TlsItem::Clear((0..n).map(|_| rng.below(256) as u8).collect())
+                }
+                6 | 7 => TlsItem::Lifecycle,
+                8 => TlsItem::After(random_case(&mut rng)),
+                _ => TlsItem::After(rng.pick(&after_pool).clone()),
+            };
+            items.push(it);
+        }
+        tls_jobs.push((format!("t{}", i + 1), m, items, 1 + (i % 3)));
+    }
+
+    enum Job {
+        Plain(String, HandlerTaskMode, Vec<Item>, usize),
+        Tls(String, HandlerTaskMode, Vec<TlsItem>, usize),
+    }
+    let mut all: Vec<Job> = Vec::new();
+    // long jobs first
+    for (a, b, c, d) in tls_jobs.drain(..2) {
+        all.push(Job::Tls(a, b, c, d));
+    }
+    for (a, b, c, d) in jobs {
+        all.push(Job::Plain(a, b, c, d));
+    }
+    for (a, b, c, d) in tls_jobs {
+        all.push(Job::Tls(a, b, c, d));
+    }
+    let total = all.len();
+    let jobs = Arc::new(all);
     let next = Arc::new(AtomicUsize::new(0));
     let results: Arc<Mutex<Vec<Option<Vec<String>>>>> = Arc::new(Mutex::new(vec![None; total]));
     let mut ws = Vec::new();
     for _ in 0..6 {
-        let (jobs, next, results, rt) = (jobs.clone(), next.clone(), results.clone(), rt.clone());
+        let (jobs, next, results, rt, kit) = (jobs.clone(), next.clone(), results.clone(), rt.clone(), kit.clone());
         ws.push(std::thread::spawn(move || loop {
             let i = next.fetch_add(1, Ordering::SeqCst);
             if i >= jobs.len() {
                 break;
             }
-            let (id, m, items, par) = &jobs[i];
-            let lines = run_sequence(&rt, id, *m, items.clone(), *par);
+            let lines = match &jobs[i] {
+                Job::Plain(id, m, items, par) => run_sequence(&rt, id, *m, items.clone(), *par),
+                Job::Tls(id, m, items, par) => run_tls_sequence(&rt, id, *m, items.clone(), *par, &kit),
+            };
             results.lock().unwrap()[i] = Some(lines);
         }));
     }
